@@ -37,7 +37,7 @@ ASSUMPTIONS = [
 ]
 CASES = {'quick': 14000, 'thorough': 200000}
 TIME = {'quick': 70, 'thorough': 540}
-MIN_NONTRIVIAL = {'quick': 4000, 'thorough': 40000}
+MIN_NONTRIVIAL = {'quick': 1500, 'thorough': 15000}
 REQUIRED = ('static_attributes_compared', 'variant_codes_checked',
             'fixed_limit_offers', 'no_limit_offers', 'pot_limit_offers',
             'pot_limit_offers_raked_pot',
